@@ -89,7 +89,7 @@ fn ribbon_calls() -> BoxedStrategy<ApiCase> {
         1 => Just(RibbonCall::JustPressed),
         1 => Just(RibbonCall::JustReleased),
     ];
-    (0u8..24, 0u8..4, prop_oneof![3 => 0.0f32..=1.0, 1 => Just(0.0362f32), 1 => Just(0.0f32), 1 => Just(1.0f32)], log_uniform(1.0, 1000.0), proptest::collection::vec(call, 0..60))
+    (0u16..(vcore::ribbon::RATES.len() as u16), 0u8..4, prop_oneof![3 => 0.0f32..=1.0, 1 => Just(0.0362f32), 1 => Just(0.0f32), 1 => Just(1.0f32)], log_uniform(1.0, 1000.0), proptest::collection::vec(call, 0..60))
         .prop_map(|(rate_idx, softpot_idx, dropper_frac, pullup_factor, calls)| ApiCase::Ribbon { rate_idx, softpot_idx, dropper_frac, pullup_factor, calls })
         .boxed()
 }
